@@ -49,7 +49,10 @@ recombination) is *not* proved; theorems that need it take it as an explicit hyp
 `GcdExact a` is the exactness flag of the subresultant gcd of pp(a) and pp(a)' (the hypothesis of the C10
 theorems; `factorize` discards the flag). Without it the value used as gcd is an arbitrary exact divisor
 of pp(a), and the leading-coefficient sign of the last factor, `e ≥ 1`, distinctness and true
-multiplicities are not determined by the structure alone. -/
+multiplicities are not determined by the structure alone.
+UPDATE: `GcdExact a` is now proved for every non-zero canonical `a` (`gcdExact_holds`, from the fundamental
+theorem of subresultants); the unconditional forms `factor_shape_exact`, `distinct`, `multiplicity_true`,
+`product_identity_of_irreducible_partial` are at the end of the file. -/
 open NTV.PolyZ
 
 /-- **Product identity, unconditional form** (partial: the cofactor `r` left by the multiplicity loop is
@@ -254,5 +257,62 @@ and leaves x+1 behind. In `factorize` this is excluded only by the irreducibilit
 recombination returns. -/
 example : multiplicities [[2, 3, 1]] [2, 5, 4, 1] [] = .ok [([2, 3, 1], 1)] ∧
     multiplicity [2, 3, 1] 6 [2, 5, 4, 1] 0 = .ok ([1, 1], 1) := by decide +kernel
+
+/-! ## Unconditional forms
+The exactness flag is now a theorem (`NTV.C10.gcd_flag`, fundamental theorem of subresultants): the
+hypothesis `GcdExact a` of the `_partial` theorems above is discharged for every non-zero canonical `a`. -/
+
+/-- **the exactness flag always holds**: for every non-zero canonical `a` the subresultant gcd of pp(a) and
+pp(a)' that `factorize` computes performs only exact divisions -/
+theorem gcdExact_holds (a : List Int) (ha : a ≠ []) (hca : Canon a) : GcdExact a :=
+  NTV.PolyZ.gcdExact_holds a ha hca
+
+/-- **Shape of the output**, second part — FULL (no flag hypothesis): in every successful run on a non-zero
+canonical `a`, every returned `f` has a positive leading coefficient and every exponent is at least 1. -/
+theorem factor_shape_exact (a : List Int) (s : NTV.Draw.Stream) (c : Int) (fs : List (List Int × Nat))
+    (ha : a ≠ []) (hca : Canon a) (h : factorize a s = .ok (c, fs)) :
+    ∀ fe ∈ fs, 0 < lc fe.1 ∧ 1 ≤ fe.2 :=
+  factor_shape_exact_partial a s c fs ha hca (gcdExact_holds a ha hca) h
+
+/-- **Pairwise distinct, pairwise coprime** — FULL (no flag hypothesis): in every successful run on a
+non-zero canonical `a` the returned polynomials are pairwise distinct, pairwise coprime in ℤ[X], and their
+product (= pp(a) / gcd(pp(a), pp(a)')) is squarefree. -/
+theorem distinct (a : List Int) (s : NTV.Draw.Stream) (c : Int) (fs : List (List Int × Nat))
+    (ha : a ≠ []) (hca : Canon a) (h : factorize a s = .ok (c, fs)) :
+    (fs.map Prod.fst).Nodup ∧ (fs.map fun fe => toPoly fe.1).Pairwise IsRelPrime ∧
+    Squarefree (fs.map fun fe => toPoly fe.1).prod :=
+  distinct_partial a s c fs ha hca (gcdExact_holds a ha hca) h
+
+/-- **True multiplicities** — FULL (no flag hypothesis, no irreducibility needed): in every successful run
+on a non-zero canonical `a` each returned exponent is the exact multiplicity of its factor in `a`:
+`fᵢ^eᵢ ∣ a` and `fᵢ^(eᵢ+1) ∤ a` in ℤ[X]. -/
+theorem multiplicity_true (a : List Int) (s : NTV.Draw.Stream) (c : Int)
+    (fs : List (List Int × Nat)) (ha : a ≠ []) (hca : Canon a) (h : factorize a s = .ok (c, fs)) :
+    ∀ fe ∈ fs, toPoly fe.1 ^ fe.2 ∣ toPoly a ∧ ¬ toPoly fe.1 ^ (fe.2 + 1) ∣ toPoly a :=
+  multiplicity_true_partial a s c fs ha hca (gcdExact_holds a ha hca) h
+
+/-- **Product identity** (partial: irreducibility of the returned factors — Mignotte bound, Hensel
+uniqueness, exhaustive recombination; out of scope here — is the only remaining hypothesis; the exactness
+flag is no longer one). If every returned factor is irreducible then nothing is left over:
+`c · ∏ fᵢ^eᵢ = a` exactly in ℤ[X]. -/
+theorem product_identity_of_irreducible_partial (a : List Int) (s : NTV.Draw.Stream) (c : Int)
+    (fs : List (List Int × Nat)) (ha : a ≠ []) (hca : Canon a)
+    (hirr : ∀ fe ∈ fs, Irreducible (toPoly fe.1)) (h : factorize a s = .ok (c, fs)) :
+    C c * (fs.map fun fe => toPoly fe.1 ^ fe.2).prod = toPoly a :=
+  product_identity_irreducible_partial a s c fs ha hca (gcdExact_holds a ha hca) hirr h
+
+example := gcdExact_holds _ (by simp) canon_example
+example := factor_shape_exact _ _ _ _ (by simp) canon_example run_example
+example := distinct _ _ _ _ (by simp) canon_example run_example
+example := multiplicity_true _ _ _ _ (by simp) canon_example run_example
+
+example : C (1 : ℤ) * ([([1, 1], 2)].map fun fe : List Int × Nat => toPoly fe.1 ^ fe.2).prod = toPoly [1, 2, 1] := by
+  refine product_identity_of_irreducible_partial [1, 2, 1] [] 1 _ (by simp) (by intro h; simp) ?_ run_example₂
+  intro fe hfe
+  simp only [List.mem_singleton] at hfe
+  subst hfe
+  have : toPoly ([1, 1] : List Int) = X - C (-1) := by simp [toPoly]; ring
+  rw [this]
+  exact irreducible_X_sub_C _
 
 end NTV.C07
